@@ -151,8 +151,14 @@ def _softmax(module, grad_input, grad_output):
 
 	grad_input_unnorm = torch.where(idxs, grad_input[0], grad_output[0] * delta)
 
-	n = grad_input[0].numel()
-	new_grad_inp = grad_input_unnorm - grad_input_unnorm.sum() * 1 / n
+	# The batch holds the examples in its first half and their references in its
+	# second half. Normalize each example-reference pair on its own so that the
+	# result does not depend on which other pairs happen to share the batch.
+	b = grad_input_unnorm.shape[0] // 2
+	n = 2 * grad_input_unnorm[0].numel()
+	pair_mean = grad_input_unnorm.reshape(2, b, -1).sum(dim=(0, 2)) / n
+	new_grad_inp = grad_input_unnorm - pair_mean.repeat(2).reshape(-1, 
+		*([1] * (grad_input_unnorm.dim() - 1)))
 	return (new_grad_inp,)
 
 
